@@ -1,6 +1,8 @@
 """Per-property metadata: claimed level, what is not decided, which Kani harnesses belong to it."""
 
-FS = 'rolling/* (FS and Arc layer) trusted against the BlockRead/BlockWrite trait contracts'
+FS = ('FS layer: the write side (RollingWriter::{write,persist,forward,...}, RollingReader::{open,into_writer}) is trusted against the BlockWrite contract; '
+      'the FS primitives Directory::{open,open_file}, read_block, create_file, FileTracker::{next,inc} are trusted against the ghost FS model of spec/vfs.rs; '
+      'RollingReader::{next_block,block}, FileTracker::{take_first_unused,first,count}, Directory::{gc,has_files_that_can_be_deleted} are VERIFIED against those')
 
 LEMMAS = {
     'C01': ['vspec::lemma_parse_ser_item', 'vspec::lemma_parse_ser_items', 'vspec::lemma_parse_ser_entry', 'vspec::lemma_replay_items_is_append_all', 'vspec::lemma_ser_items_empty', 'vspec::lemma_replay_history',
@@ -9,8 +11,8 @@ LEMMAS = {
     'C07': ['vspec::lemma_frame_enc_len', 'vspec::lemma_full_frame_ends_block', 'vspec::enc', 'vspec::lemma_enc_len_bound', 'frame::header::lemma_hdr_roundtrip',
             'vroundtrip::lemma_blocks_of', 'vroundtrip::lemma_read_written_frame', 'vroundtrip::lemma_read_written_record', 'vroundtrip::lemma_roundtrip_all'],
     'C08': ['frame::header::lemma_hdr_roundtrip'],
-    'C10': ['vspec::lemma_frame_step_progress', 'vspec::rec_step', 'vspec::lemma_rec_step_progress'],
-    'C11': ['vspec::lemma_frame_step_progress', 'vspec::lemma_rec_step_progress'],
+    'C10': ['vspec::lemma_frame_step_progress', 'vspec::rec_step', 'vspec::lemma_rec_step_progress', 'vfs::lemma_all_blocks_ok', 'vfs::lemma_block_at'],
+    'C11': ['vspec::lemma_frame_step_progress', 'vspec::lemma_rec_step_progress', 'vfs::lemma_blocks_below_skip', 'vfs::lemma_blocks_below_step'],
     'C12': ['vspec::lemma_parse_ser_items', 'vspec::lemma_rec_step_progress'],
     'C15': ['vspec::lemma_enc_len_bound', 'vspec::lemma_ser_entry_len'],
     'C04': ['vspec::lemma_replay_items_is_append_all', 'multi_record_log::lemma_covers', 'multi_record_log::lemma_wal_after_positions_push'],
@@ -59,15 +61,14 @@ PROPS = {
     'C06': dict(
         level='other',
         explain='Bounded only for the end-to-end statement. The property is about Arc::strong_count reaching 1 (live clones across the heap): Verus treats Arc<T> as T, Kani contracts cannot quantify over the heap. '
-                'Checked: (1) Verus, handle PLACEMENT for all inputs: append_record stores a handle in the new last record, clears the previous last record\'s handle iff it names the same file, leaves all others alone (O-C06-place-append); '
+                'Checked: (1) Verus, handle PLACEMENT for all inputs: append_record stores the handle of the file being written in the new last record, clears the previous last record\'s handle iff it names the same file, leaves all others alone (O-C06-place-append); '
                 'truncate_head keeps exactly the handles of the retained records (O-C06-place-trunc); the clone of the current file is held across the GC pass (O-C01-gc-pin, syntactic ownership check). '
                 'FileTracker::take_first_unused hands out only the OLDEST tracked file and never the last remaining one (O-C06-take-oldest); Directory::gc removes a strict prefix of the tracked files and keeps at least one (O-C06-gc-prefix) '
                 '-- both verified against assumed contracts of BTreeSet::{first,pop_first}; the GC pass is invoked unconditionally by truncate/delete_queue/open (O-C06-gc-invoked-*, syntactic). '
                 '(2) Kani K-handles, BOUNDED (fixed 3-append / 2-file shape, symbolic truncate position): a file handle can_be_deleted() iff no retained record was appended with it.',
         kani_quick=['K-handles'], kani_thorough=[],
         trusted=['everything outside the harness'],
-        not_decided=['that can_be_deleted() is true exactly when no queue retains a record of the file (Arc strong counts; bounded K-handles only)', 'FileTracker::{next,inc} (BTreeSet::range)', 'the directory listing itself', 'disk_used_bytes',
-                     'identity of the stored handle with the file being written (derived Clone has no Verus spec)'],
+        not_decided=['that can_be_deleted() is true exactly when no queue retains a record of the file (Arc strong counts; bounded K-handles only)', 'FileTracker::{next,inc} (BTreeSet::range)', 'the directory listing itself', 'disk_used_bytes'],
     ),
     'C07': dict(
         level='proof',
@@ -106,9 +107,11 @@ PROPS = {
     'C11': dict(
         level='proof',
         explain='The replay loop has a decreases clause (reader position, lexicographic); read_record guarantees progress unless it returns Ok(None) or Err(IoError); '
-                'at `continue` the error is therefore not an I/O error (O-C11-term). I/O errors leave the reader position unchanged (O-C11-fr-io, O-C11-rr-io).',
+                'at `continue` the error is therefore not an I/O error (O-C11-term). I/O errors leave the reader position unchanged (O-C11-fr-io, O-C11-rr-io). '
+                'RollingReader::next_block is verified against the BlockRead contract over the ghost FS model: Ok(true) only for the next block of the concatenation of all tracked files, '
+                'Ok(false) only when no tracked file holds another full block, so an I/O error of open_file/read_block can neither be turned into end-of-log nor skip a file (O-BR-next-*).',
         kani_quick=[], kani_thorough=[],
-        trusted=[FS + ' (next_block propagates FS errors as Err)'], not_decided=['Directory::open / RollingReader::open error paths (FS)'],
+        trusted=[FS], not_decided=['Directory::open / RollingReader::open error paths (FS primitives, trusted)'],
     ),
     'C12': dict(
         level='proof',
